@@ -388,6 +388,7 @@ CLOSE_PROGRAMS = {
     'send2-recv2': [[_op('send', 1), _op('send', 2)], [_op('recv'), _op('recv')], [_op('close')]],
     'send-poll-close2': [[_op('send', 1)], [_op('poll'), _op('close')], [_op('close')]],
     'close-close': [[_op('close')], [_op('close')]],
+    'send-poll-poll': [[_op('send', 1)], [_op('poll')], [_op('poll'), _op('close'), _op('poll')]],
     'send2-poll-close': [[_op('send', 1), _op('send', 2)], [_op('poll'), _op('close')]],
     'poll-poll': [[_op('poll')], [_op('poll')]],
     'poll-close': [[_op('poll')], [_op('close')]],
@@ -401,6 +402,8 @@ CLOSE_PLAN_QUICK = [('echo', 'idle-recv', 3), ('device', 'idle-recv', 3), ('iopo
                     ('ioport', 'close-close', 1, True),
                     # a device write that fails must not leave the port unusable for other threads
                     ('faultydev', 'send2-poll-close', 2), ('faultydev', 'send-poll-close2', 1),
+                    # two consumers and one message on the lock-free wrapper, then a poll after close
+                    ('ioport', 'send-poll-poll', 2), ('echo', 'send-poll-poll', 1),
                     # a PortServer with one connection waiting: two polls at once, a poll racing with close
                     ('server', 'poll-poll', 1, True), ('server', 'poll-close', 1, True), ('server', 'close-close', 1, True)]
 CLOSE_PLAN_THOROUGH = [('echo', 'idle-recv', 4), ('device', 'idle-recv', 4), ('ioport', 'idle-recv', 3), ('multi', 'idle-recv', 3),
@@ -411,6 +414,7 @@ CLOSE_PLAN_THOROUGH = [('echo', 'idle-recv', 4), ('device', 'idle-recv', 4), ('i
                        ('ioport', 'close-close', 2, True), ('multi', 'close-close-close', 2, True),
                        ('device', 'send-recv', 1, True), ('multi', 'idle-recv', 1, True),
                        ('faultydev', 'send2-poll-close', 3), ('faultydev', 'send-poll-close2', 3),
+                       ('ioport', 'send-poll-poll', 3), ('echo', 'send-poll-poll', 2), ('device', 'send-poll-poll', 2),
                        ('server', 'poll-poll', 2, True), ('server', 'poll-close', 2, True), ('server', 'close-close', 2, True)]
 CLOSE_SHARDS = 8
 
